@@ -36,12 +36,15 @@ fn worker(check: &str, tier: Tier, i: usize, n: usize, from: usize, only: Option
     vcore::env::set_poison(true);
     // a runaway allocation of the subject must kill this worker only, not the machine
     unsafe { let lim = libc::rlimit { rlim_cur: 12 << 30, rlim_max: 12 << 30 }; libc::setrlimit(libc::RLIMIT_AS, &lim); }
-    enum Item { Ty(vcore::Entry), Seq(&'static str, Box<dyn seqs::SeqOps>), Mut(&'static str, &'static str, vcore::Entry) }
+    enum Item { Ty(vcore::Entry), Seq(&'static str, Box<dyn seqs::SeqOps>), Mut(&'static str, &'static str, vcore::Entry), Twin(vcore::Entry, vcore::Entry) }
     let all: Vec<Item> = if check == "C16" { seqs::all().into_iter().map(|(id, o)| Item::Seq(id, o)).collect() }
         else if check == "C04" { universe::all().into_iter().map(Item::Ty).chain(mutants::all().into_iter().map(|(f, id, e)| Item::Mut(f, id, e))).collect() }
         else if check == "C13" { universe::all().into_iter().map(Item::Ty).chain(seqs::all().into_iter().map(|(id, o)| Item::Seq(Box::leak(format!("borrowed slice / iterator over {}", id).into_boxed_str()), o))).collect() }
         else { universe::all().into_iter().map(Item::Ty).collect() };
-    let id_of = |it: &Item| match it { Item::Ty(e) => e.id, Item::Seq(id, _) => id, Item::Mut(_, id, _) => id };
+    // pairs of different types with the same `type_name`: both members in this process, in order
+    let mut all = all;
+    if check != "C16" && check != "C04" { all.extend(udefs::twins().into_iter().map(|(a, b)| Item::Twin(a, b))); }
+    let id_of = |it: &Item| match it { Item::Ty(e) => e.id, Item::Seq(id, _) => id, Item::Mut(_, id, _) => id, Item::Twin(a, _) => a.id };
     let members: Vec<vcore::checks4::Member> = if check == "C04" { all.iter().map(|it| match it {
         Item::Ty(e) => vcore::checks4::Member { id: e.id, family: "", ops: e.ops.as_ref() },
         Item::Mut(f, id, e) => vcore::checks4::Member { id, family: f, ops: e.ops.as_ref() },
@@ -62,6 +65,14 @@ fn worker(check: &str, tier: Tier, i: usize, n: usize, from: usize, only: Option
             Item::Ty(_) | Item::Mut(..) if check == "C04" => vcore::env::guarded(|| vcore::checks4::c04(&members, mine_idx[k], band, &mut cx)),
             Item::Ty(e) => vcore::env::guarded(|| vcore::run_check(e.ops.as_ref(), check, &mut cx)),
             Item::Mut(..) => unreachable!(),
+            Item::Twin(a, b) => {
+                let r = vcore::env::guarded(|| vcore::run_check(a.ops.as_ref(), check, &mut cx));
+                if let Err(p) = r { cx.machinery_error(format!("checker panicked: {}", p)); }
+                let v = cx.flush_type();
+                { let mut o = out.lock(); writeln!(o, "{}", v).unwrap(); writeln!(o, "{}", json!({"t": "begin", "k": k, "type_id": b.id})).unwrap(); o.flush().unwrap(); }
+                cx.type_id = b.id.to_string();
+                vcore::env::guarded(|| vcore::run_check(b.ops.as_ref(), check, &mut cx))
+            }
             Item::Seq(_, o) if check == "C13" => vcore::env::guarded(|| seqs::c13_borrowed(o.as_ref(), &mut cx)),
             Item::Seq(_, o) => vcore::env::guarded(|| seqs::c16(o.as_ref(), &mut cx)),
         };
